@@ -133,7 +133,7 @@ func Run(r *vf.Run) {
 	var cases []*vcase
 
 	// ---- corpus 1: declgen
-	nGen := r.Pick(200, 5000)
+	nGen := r.Pick(200, 3000)
 	genPkgs := make([]*declgen.DeclPkg, nGen)
 	parallel(nGen, func(i int) {
 		genPkgs[i] = declgen.DeclGen(r.Rand("declgen", i), declgen.DeclOptions{Path: fmt.Sprintf("example.com/dg/p%04d", i), Importer: imp})
@@ -287,7 +287,7 @@ func Run(r *vf.Run) {
 	r.Assume("go/types of the harness toolchain is the reference for 'still type-checks'")
 	r.Assume("writes to a deleted variable (x = e, x++, range x) are rewritten to blank assignments before re-checking: U1000 documents that writes are not uses (rule 9.7)")
 	r.Assume("a deleted constant inside a parenthesised group is replaced by `_` (keeps iota and implicit repetition); its expression is kept only if a surviving constant repeats it")
-	r.Finish(evals, nontrivial, r.Pick(150, 2500),
+	r.Finish(evals, nontrivial, r.Pick(150, 1500),
 		"evaluations = package variants (p, p+in-package tests, p_test) analysed by the real U1000 and put under both clauses; distinct_nontrivial = variants in which at least one reported object was actually deleted and re-type-checked while at least one unexported package-level object stayed used")
 }
 
